@@ -222,7 +222,7 @@ def fold_stress(ctx: vf.Ctx, want: set, classify, seed_salt=7919):
         except Exception:
             sres = None
         if sres is not None:
-            slines.extend(['set ' + cc.fmt(pre), 'straighten ' + cc.fmt(region)])
+            slines.extend(['set ' + cc.fmt(pre), ('straightenx ' if cc.fold_cmd() == 'foldx' else 'straighten ') + cc.fmt(region)])
             scases.append((scase, sres))
         sout = cc.apply_impl(d, scall)
         if sout.kind == 'E' and sout.val.startswith('Internal'):
@@ -238,7 +238,7 @@ def fold_stress(ctx: vf.Ctx, want: set, classify, seed_salt=7919):
         U = c.get_unitary() if ('order' in want and n <= 5) else None
         out = cc.apply_impl(c, call)
         post = cc.snap(c)
-        lines.extend(['set ' + cc.fmt(pre), 'check_region ' + cc.fmt(region), 'set ' + cc.fmt(pre), 'fold ' + cc.fmt(region)])
+        lines.extend(['set ' + cc.fmt(pre), 'check_region ' + cc.fmt(region), 'set ' + cc.fmt(pre), cc.fold_cmd() + ' ' + cc.fmt(region)])
         cases.append((case, '1' if accepted is True else '0', f'{out} | {cc.fmt(post)}'))
         if out.kind == 'E':
             if out.val.startswith('Internal'):
@@ -284,6 +284,7 @@ def fold_stress(ctx: vf.Ctx, want: set, classify, seed_salt=7919):
             vbad += 1
             report(dict(kind='coq_views', call=call, symptoms=names), case, 'the views derived by coq/circuit/CViews.v', names)
     ctx.cov['fold_stress_regions'] = len(cases)
+    ctx.cov['straighten_algorithm_under_test'] = 'repaired (fixes/D6.patch)' if cc.fold_cmd() == 'foldx' else 'current (leaves idle cycles: D6)'
     ctx.cov['fold_stress_model_disagreements'] = bad
     if 'views' in want:
         ctx.cov['fold_stress_view_states_compared_with_coq'] = len(vcases)
